@@ -85,8 +85,9 @@ type RunSpec struct {
 	AllowPanic bool             `json:"allow_panic"`
 	Cross      string           `json:"cross_solver"` // thorough: re-run on this solver and compare
 	What       string           `json:"what"`
-	NativeS    int              `json:"native_timeout_s"` // wall-clock limit of one native replay (default 20)
-	Scaled     bool             `json:"scaled"`           // run against the spec's scaled_source rewrites
+	NativeS    int              `json:"native_timeout_s"`          // wall-clock limit of one native replay (default 20)
+	Scaled     bool             `json:"scaled"`                    // run against the spec's scaled_source rewrites
+	NativeRacy bool             `json:"native_schedule_dependent"` // the harness asks for inputs depending on how far real goroutines got; a native run that takes another harness branch is not comparable
 }
 
 type KnownFinding struct {
@@ -231,7 +232,7 @@ func checkMain(args []string) int {
 			rep.cleanup()
 		}
 	}()
-	validated, validationTried := 0, 0
+	validated, validationTried, diverged := 0, 0, 0
 	probed := map[string]int64{}
 	if len(spec.Probes) > 0 {
 		rep, err = newNativeReplayer(&spec)
@@ -454,6 +455,11 @@ func checkMain(args []string) int {
 						// the native side detects quiescence by wall clock; under load it can misjudge: ask again
 						out = rep.run(s.Entry, s.Bounds, s.Inputs, natT, s.Env)
 					}
+					if rs.NativeRacy && out.exhausted {
+						validationTried--
+						diverged++
+						continue
+					}
 					if out.agrees(s) {
 						validated++
 					} else {
@@ -499,6 +505,9 @@ func checkMain(args []string) int {
 		if usedKnown[i] {
 			fmt.Printf("KNOWN-FINDING: property=%s %s\n", spec.Property, known[i].What)
 		}
+	}
+	if diverged > 0 {
+		fmt.Printf("note: %d validation sample(s) of schedule-dependent harnesses took another harness branch natively (not comparable, not counted)\n", diverged)
 	}
 	for _, p := range problems {
 		fmt.Println("UNDECIDED:", p)
